@@ -91,7 +91,7 @@ type Sim struct {
 	Faults   map[string]int
 	sched    *Source
 	minPri   uint64
-	stepHook []func()
+	inHook   bool // the scheduler itself is executing a harness hook: yields are no-ops
 }
 
 var active unsafe.Pointer // *Sim
@@ -253,6 +253,7 @@ func (s *Sim) loop() {
 		if s.Failed() {
 			return
 		}
+		s.inHook = true
 		if s.cfg.OnStep != nil {
 			if f := s.cfg.OnStep(s); f != nil {
 				s.SetFailure(f)
@@ -262,6 +263,7 @@ func (s *Sim) loop() {
 		if s.cfg.StateSig != nil {
 			s.States[s.cfg.StateSig()] = struct{}{}
 		}
+		s.inHook = false
 		var run []*G
 		curRunnable := false
 		for _, g := range s.gs {
@@ -278,7 +280,10 @@ func (s *Sim) loop() {
 		}
 		if len(run) == 0 {
 			s.quiesces++
-			if s.cfg.OnQuiesce != nil && s.cfg.OnQuiesce(s, s.quiesces) {
+			s.inHook = true
+			cont := s.cfg.OnQuiesce != nil && s.cfg.OnQuiesce(s, s.quiesces)
+			s.inHook = false
+			if cont {
 				if s.Failed() {
 					return
 				}
@@ -381,7 +386,7 @@ func (s *Sim) wake(g *G) {
 // Yield is a scheduling point of the running goroutine.
 func Yield(site string) {
 	s := Active()
-	if s == nil {
+	if s == nil || s.inHook {
 		return
 	}
 	s.park(s.cur, site)
@@ -391,7 +396,7 @@ func Yield(site string) {
 // returns its handle for After.
 func Before(site string) *G {
 	s := Active()
-	if s == nil {
+	if s == nil || s.inHook {
 		return nil
 	}
 	g := s.cur
@@ -477,6 +482,13 @@ func W3R[A, B, C, R any](g *G, f func(A, B, C) R) func(A, B, C) {
 	return func(a A, b B, c C) { g.run(func() { f(a, b, c) }) }
 }
 
+func W4R[A, B, C, D, R any](g *G, f func(A, B, C, D) R) func(A, B, C, D) {
+	return func(a A, b B, c C, d D) { g.run(func() { f(a, b, c, d) }) }
+}
+func W5[A, B, C, D, E any](g *G, f func(A, B, C, D, E)) func(A, B, C, D, E) {
+	return func(a A, b B, c C, d D, e E) { g.run(func() { f(a, b, c, d, e) }) }
+}
+
 // --- select ---------------------------------------------------------------------
 
 // Sel carries one execution of a rewritten select statement.
@@ -489,7 +501,7 @@ type Sel struct {
 // also draws the order in which ready clauses are polled.
 func SelBegin(site string, n int) *Sel {
 	s := Active()
-	if s == nil {
+	if s == nil || s.inHook {
 		// Pass-through: poll in a pseudo-random order like the runtime does.
 		o := make([]int, n)
 		for i := range o {
